@@ -467,6 +467,15 @@ def text_mutations(name, text, rng, want):
     for special, desc in ((b"", "empty file"), (b"(" * 20000, "20000 open parens"), (b"{" * 20000, "20000 open braces"), (b"\"" + b"a" * 70000, "unterminated 70k string"),
                           (b"/*" * 3000, "nested comment openers"), (b"\xef\xbb\xbf" + data, "UTF-8 BOM"), (data * 200, "200 copies")):
         out.append(("text", desc, special))
+    if name == "script.ld":
+        # valid scripts whose expressions sit on arithmetic boundaries (64-bit wrap, INT64_MIN / -1, shift counts >= 64, deep nesting)
+        big = ["0x8000000000000000", "0xffffffffffffffff", "0x7fffffffffffffff", "(1 << 63)", "(0 - 1)", "0", "1", "64", "65", "127", "0x100000000"]
+        ops = ["/", "*", "+", "-", "<<", ">>", "&", "|", "==", "<", "&&", "||"]
+        exprs = [f"{a} {op} {b}" for a in big[:5] for op in ops[:6] for b in ("(0 - 1)", "0xffffffffffffffff", "2", "64", "(1 << 63)")]
+        exprs += ["ALIGN(0xffffffffffffffff, 0x10000)", "ALIGN(1, 0x8000000000000000)", "MAX(0 - 1, 1 << 63)", "MIN(1 << 63, 0 - 1)",
+                  "-(1 << 63)", "~0 / ~0", "(" * 200 + "1" + ")" * 200, "- " * 300 + "1", "!" * 300 + "1"]
+        for e in exprs:
+            out.append(("text", "boundary expression " + e[:60], (text + f"\nASSERT(({e}) == ({e}), \"boundary\")\n").encode("latin1")))
     return out
 
 
